@@ -167,7 +167,7 @@ class Unit:
         for i in self.incs:
             inc_files += tree_files(i, {".hpp", ".h"})
         inc_files += tree_files(os.path.join(VERIF, "drivers"), {".hpp", ".h"})
-        key = text_hash(file_hash(inc_files), " ".join(self.flags()))
+        key = text_hash(file_hash(inc_files), " ".join(self.flags()), "narrowing-as-gcc")
         self.dir = os.path.join(CACHE, "unit-%s-%s" % (re.sub(r"[^A-Za-z0-9_]", "_", self.name), key))
         lk = _lock(self.dir + ".lock")
         try:
@@ -175,7 +175,7 @@ class Unit:
                 os.makedirs(self.dir, exist_ok=True)
                 t0 = time.time()
                 p = sh([cx, self.driver, "--roots", "sbv", "-o", os.path.join(self.dir, "lowered.c"), "--names", os.path.join(self.dir, "names.json"),
-                        "--shims", os.path.join(self.dir, "shims.cpp"), "--"] + self.flags() + ["-w", "-I/usr/lib/llvm-14/lib/clang/14.0.6/include"], check=False, timeout=600)
+                        "--shims", os.path.join(self.dir, "shims.cpp"), "--"] + self.flags() + ["-w", "-Wno-c++11-narrowing", "-I/usr/lib/llvm-14/lib/clang/14.0.6/include"], check=False, timeout=600)
                 if p.returncode != 0:
                     raise ToolError("cxx2c failed on %s [%s %s]:\n%s" % (self.driver, self.std, self.asserts, p.stdout[-6000:]))
                 # the lowering must be valid C with the pinned layouts
